@@ -1,4 +1,5 @@
 import BornoModel.Eval
+import BornoModel.Lemmas.EvalInv
 /-! # C03 — names resolve through nested block scopes; shadowing and lifetime follow blocks -/
 namespace Borno.Props.C03
 open Borno
@@ -109,5 +110,14 @@ theorem program_scope_under_globals (input : List Char) :
     (∃ g, (initStore input).envs[0]? = some g ∧ g.parent = none ∧ g.vars.map (·.1) = Expect.natives.map (·.1)) := by
   refine ⟨rfl, _, rfl, rfl, ?_⟩
   simp [List.map_map, Function.comp_def]
+
+/-- **scope frames are stable**: across any evaluation every existing scope keeps its enclosing scope
+    (the chain a name is resolved through never changes) and keeps every name it has (a binding is
+    never removed; it can only be updated) -/
+theorem frames_stable (P : Platform) (f : Nat) (s : Stmt) (env : Nat) (repl : Bool) (σ σ' : Store) (r : Val × Signal)
+    (h : evalS P f s env repl σ = .ok r σ') (i : Nat) (fr : Frame) (hfr : σ.envs[i]? = some fr) :
+    ∃ fr', σ'.envs[i]? = some fr' ∧ fr'.parent = fr.parent ∧
+      ∀ n, (fr.vars.lookup n).isSome = true → (fr'.vars.lookup n).isSome = true := by
+  have := (allSat P f).s s env repl σ; rw [h] at this; exact this.env_keep i fr hfr
 
 end Borno.Props.C03
